@@ -10,7 +10,7 @@ def renderTeal (out : IO.FS.Stream) (t : Teal) : IO Unit := do
     emit out s!"block {b.idx} live={if t.live.contains b.idx then 1 else 0} sub={pencode (b.sub.getD "-")} lines={first}-{last} n={b.ins.length} next={natList b.next} prev={natList b.prev}"
   for s in t.main :: t.subs do
     emit out s!"sub {pencode s.name} entry={s.entry} blocks={natList s.blocks} exits={natList s.exits} callers={natList s.callers} retpoints={natList s.retPoints}"
-  emit out ("intcs " ++ (match t.intcs with | some cs => natList cs | none => "none"))
+  emit out ("intcs " ++ (match t.intcs with | some [] => "none" | some cs => natList cs | none => "none"))
   emit out s!"version {t.version}"
   emit out s!"live {natList t.live}"
 
